@@ -77,7 +77,7 @@ FixFired(f, x) ==
           /\ SomeP(x, LAMBDA p : p.typ = "dict" /\ p.def = "absent"))         \* dict -> Optional[dict] = None -> Optional[str]
      \/ (d = "fix_gn_return_dot_after_forced_default" /\ f \in {"docstring_google", "docstring_numpydoc"} /\ x.ret # NoRet
           /\ SomeP(x, LAMBDA p : p.def \notin {"absent", "str_empty"}))    \* round 1 forces a return default, round 2 then appends "."
-     \/ (d = "fix_str_default_with_dot_drifts" /\ f \in DocFmts /\ SomeP(x, LAMBDA p : p.def = "str_dot"))   \* cut at the first full stop, again on every round
+     \/ (d = "fix_str_default_with_dot_drifts" /\ f \in DocFmts /\ SomeP(x, LAMBDA p : p.def = "str_dot" /\ p.typ = "absent"))   \* cut at the first full stop, again on every round
      \/ (d = "fix_sqlalchemy_doc_whitespace_grows" /\ f = "sqlalchemy")      \* every round indents the class description once more
      \/ (d = "fix_numpydoc_untyped_unstable" /\ f = "docstring_numpydoc" /\ SomeP(x, LAMBDA p : p.typ = "absent"))}    \* (repaired)
 Fired(f, x) == IF x = Top THEN {} ELSE AB(f, x).fired \cup (IF Mode = "fix" THEN FixFired(f, x) ELSE {})
